@@ -5,7 +5,9 @@ CONSTANTS
   Conns <- K1
   Ports <- P2
   MaxSteps = 7
+  MaxSubs = 0
 INVARIANT TypeOK
+INVARIANT ConsultedInOrder
 INVARIANT OneDecision
 INVARIANT NothingForExit
 INVARIANT ViaExact
